@@ -109,8 +109,16 @@ def cases(draw: Any, tier: str) -> dict:
             if total == 0:
                 tail, total = 1, 1
             ending["at"] = d.int(1, total)
-    return {"backend": draw(BACKEND), "sched_seed": draw(SEED), "kind": kind, "ambient": d.pct(20),
+    case = {"backend": draw(BACKEND), "sched_seed": draw(SEED), "kind": kind, "ambient": d.pct(20),
             "items": items, "tail": tail, "ending": ending}
+    if kind == "component" and d.pct(40):
+        sp = _spec(d, ids, 0, tier)
+        sp.update(route="ctxtd_method", kind="async")
+        sp.pop("shape", None)
+        sp.pop("ntypes", None)
+        sp.pop("pass_exc", None)
+        case["start_spec"] = sp
+    return case
 
 
 def strategy(prop: str, tier: str) -> st.SearchStrategy:
@@ -377,9 +385,34 @@ class Interp:
         if case["kind"] == "component":
             interp = self
 
-            class Comp(Component):
-                async def start(self) -> None:
-                    await interp.do_items()
+            sspec = case.get("start_spec")
+            if sspec:
+                # the documented idiom: the component's start() itself is a @context_teardown generator
+                from asphalt.core import context_teardown
+
+                begin, after, end = self.behaviour(sspec)
+                cps, sl = sspec.get("cps", 0), sspec.get("sleep", 0)
+
+                class Comp(Component):
+                    @context_teardown
+                    async def start(self):  # type: ignore[no-untyped-def]
+                        await interp.do_items()
+                        interp.reg_order.append(sspec)  # registered when the generator reaches its yield
+                        exc = yield
+                        try:
+                            begin(exc, True)
+                            await checkpoints(cps)
+                            await vsleep(sl)
+                            after()
+                        except BaseException as e:
+                            end(e)
+                            raise
+                        else:
+                            end(None)
+            else:
+                class Comp(Component):  # type: ignore[no-redef]
+                    async def start(self) -> None:
+                        await interp.do_items()
 
             await start_component(Comp, timeout=None)
         else:
